@@ -9,10 +9,13 @@ package main
 
 import (
 	"bytes"
+	"encoding/base64"
 	"encoding/binary"
 	"fmt"
 	"io"
 	"net"
+	"net/http"
+	"net/http/httptest"
 	"strings"
 	"sync"
 	"sync/atomic"
@@ -231,6 +234,7 @@ type streamLeg struct {
 	srv     *frugal.FSimpleServer
 	st      *trackingServerTransport
 	addr    string
+	writeMu *sync.Mutex
 }
 
 type trackedTransport struct {
@@ -314,7 +318,9 @@ func startStreamLeg(kind, proto string) (*streamLeg, error) {
 	} else {
 		l.st.pipes = make(chan *trackedTransport, 64)
 	}
-	l.srv = frugal.NewFSimpleServer(mainsvc.NewFFooProcessor(l.handler), l.st, rig.ProtocolFactory(proto))
+	proc := mainsvc.NewFFooProcessor(l.handler)
+	l.writeMu = proc.GetWriteMutex()
+	l.srv = frugal.NewFSimpleServer(proc, l.st, rig.ProtocolFactory(proto))
 	go l.srv.Serve()
 	return l, nil
 }
@@ -324,17 +330,26 @@ func (l *streamLeg) stop() { l.srv.Stop() }
 // open returns a raw connection and the key under which the server side of it
 // is tracked.
 func (l *streamLeg) open() (rig.RawConn, string, error) {
+	c, key, err := l.dial()
+	if err != nil {
+		return nil, "", err
+	}
+	return rig.NewStreamRaw(c), key, nil
+}
+
+// dial returns the bare client side of a new connection.
+func (l *streamLeg) dial() (net.Conn, string, error) {
 	if l.kind == "tcp" {
 		c, err := net.Dial("tcp", l.addr)
 		if err != nil {
 			return nil, "", err
 		}
-		return rig.NewStreamRaw(c), c.LocalAddr().String(), nil
+		return c, c.LocalAddr().String(), nil
 	}
 	a, b := net.Pipe()
 	w := &trackedTransport{TTransport: thrift.NewTSocketFromConnConf(b, nil), key: fmt.Sprintf("pipe-%d", atomic.AddUint64(&pipeSeq, 1))}
 	l.st.pipes <- w
-	return rig.NewStreamRaw(a), w.key, nil
+	return a, w.key, nil
 }
 
 // serving reports what a goroutine dump says about the connection: served =
@@ -391,6 +406,7 @@ type abandonProbe struct {
 	state    string
 	count    int
 	verdict  atomic.Value // string
+	sample   string
 }
 
 func (p *abandonProbe) result() string {
@@ -421,6 +437,12 @@ func (p *abandonProbe) check() bool {
 		state = "abandoned"
 	case idle:
 		state = "idle"
+	default:
+		// busy: is it parked on a write mutex that nobody holds any more?
+		if ids, sample := orphanedWriteMutex(p.leg.writeMu); ids != "" {
+			state = "write-mutex-orphaned:" + ids
+			p.sample = sample
+		}
 	}
 	if state == "" || state != p.state || prog != p.lastProg {
 		p.state, p.count, p.lastProg = state, 0, prog
@@ -435,4 +457,50 @@ func (p *abandonProbe) check() bool {
 		return true
 	}
 	return false
+}
+
+// httpLeg ---------------------------------------------------------------------
+
+// httpLeg is the library's HTTP handler behind net/http/httptest; requests are
+// posted by the monitor itself so that it controls the headers (a client may
+// announce a response size limit with x-frugal-payload-limit).
+type httpLeg struct {
+	handler *e2e.Handler
+	srv     *httptest.Server
+}
+
+func startHTTPLeg(proto string) *httpLeg {
+	l := &httpLeg{handler: &e2e.Handler{Behave: behave}}
+	l.srv = httptest.NewServer(frugal.NewFrugalHandlerFunc(mainsvc.NewFFooProcessor(l.handler), rig.ProtocolFactory(proto)))
+	return l
+}
+
+func (l *httpLeg) stop() { l.srv.Close() }
+
+// post sends one frame; it returns the decoded response frame (200 only), the
+// status and a transport-level error text.
+func (l *httpLeg) post(frame []byte, respLimit int) ([]byte, int, string) {
+	req, err := http.NewRequest("POST", l.srv.URL, strings.NewReader(base64.StdEncoding.EncodeToString(frame)))
+	if err != nil {
+		return nil, 0, err.Error()
+	}
+	req.Header.Set("content-type", "application/x-frugal")
+	req.Header.Set("content-transfer-encoding", "base64")
+	if respLimit > 0 {
+		req.Header.Set("x-frugal-payload-limit", fmt.Sprint(respLimit))
+	}
+	resp, err := http.DefaultClient.Do(req)
+	if err != nil {
+		return nil, 0, err.Error()
+	}
+	defer resp.Body.Close()
+	b, _ := io.ReadAll(resp.Body)
+	if resp.StatusCode != 200 {
+		return nil, resp.StatusCode, fmt.Sprintf("http status %d: %s", resp.StatusCode, strings.TrimSpace(string(b)))
+	}
+	dec, err := base64.StdEncoding.DecodeString(string(b))
+	if err != nil {
+		return nil, 200, "reply is not base64: " + err.Error()
+	}
+	return dec, 200, ""
 }
